@@ -19,8 +19,8 @@ from .chanlib import v
 PROP = "C13"
 LEVEL = "fault_enumeration"
 BUDGET = {
-    "quick": {"budget_s": 20, "chunk": 6, "shrink_s": 20},
-    "thorough": {"budget_s": 600, "chunk": 12, "shrink_s": 60},
+    "quick": {"budget_s": 25, "chunk": 10, "shrink_s": 20, "chunk_wall": 400.0},
+    "thorough": {"budget_s": 600, "chunk": 20, "shrink_s": 60, "chunk_wall": 600.0},
 }
 RULE = (
     "cases: one generated value of the supported grammar (None, bool, ints on both sides of 2**31, floats, complex, "
@@ -163,6 +163,15 @@ def damage_set(rng, data, tier):
     return out
 
 
+def _has_length_bomb(d):
+    i = d.find(b"K")
+    while i >= 0:
+        if i + 5 <= len(d) and int.from_bytes(d[i + 1:i + 5], "big", signed=True) >= (1 << 22):
+            return True
+        i = d.find(b"K", i + 1)
+    return False
+
+
 def execute(case, chooser):
     import random
     m = load_execnet()
@@ -178,7 +187,15 @@ def execute(case, chooser):
     seen = set()
     nloads = 0
     stats = {}
+    bombs = 0
     for kind, d in dmg:
+        # a damaged NEWLIST length makes the loader allocate up to hundreds of MB (the listed known finding
+        # alloc-by-length-field); evaluate a bounded number of such strings per run, deterministically
+        if not only and _has_length_bomb(d):
+            bombs += 1
+            if bombs > 8:
+                stats["skipped-further-length-bombs"] = stats.get("skipped-further-length-bombs", 0) + 1
+                continue
         for api in ("loads", "load"):
             nloads += 1
             _state["events"] = []
